@@ -92,6 +92,10 @@ var docFamilies = []docFamily{
 	{"deep-mixed", func(n int) []byte { return []byte(strings.Repeat(`[{"a":`, n/2) + "0" + strings.Repeat("}]", n/2)) }, deep},
 	{"deep-with-siblings", func(n int) []byte { return []byte(strings.Repeat(`[1,"x",`, n) + "0" + strings.Repeat("]", n)) }, deep},
 	{"flat-numbers", func(n int) []byte { return []byte("[" + strings.Repeat("12345.678,", 8*n) + "0]") }, wide},
+	// result slices far beyond any fixed growth step (seeded change C20r6-m1: +4096 elements per
+	// reallocation once a slice holds 4096)
+	{"very-long-flat-array", func(n int) []byte { return []byte("[" + strings.Repeat("0,", 25*n) + "0]") }, wide},
+	{"very-wide-object", func(n int) []byte { return []byte(keysObj(12*n, "")) }, wide},
 	{"flat-strings", func(n int) []byte { return []byte("[" + strings.Repeat(`"abcdefgh",`, 8*n) + `""]`) }, wide},
 	{"one-long-escaped-string", func(n int) []byte { return []byte(`["` + strings.Repeat(`ab\n`, 10*n) + `"]`) }, wide},
 	{"one-long-unicode-escaped-string", func(n int) []byte { return []byte(`["` + strings.Repeat(`\u4e2d\u6587`, 4*n) + `"]`) }, wide},
